@@ -16,6 +16,13 @@ P = {
                   'whatever any contract logs; a whole transaction of transfer / transferFrom calls on any mix of contracts (unregistered ones: '
                   'ARBITRARY token behaviour) keeps every registered pair of either origin backed; refutation witness for a pair lookup that is '
                   'memoised across logs and not reset on a registry miss ([A; B; B]); '
+                  'SPELLINGS: every address / token identifier reaches the chain as a string; the conversion functions of the model take '
+                  'resolved actors and the step function of the correspondence (step_sp) takes the operation plus the spelling of its '
+                  'string fields: any two spellings the parsing accepts give the same state and result (= step of the resolved operation), '
+                  'every hex spelling (letter case, checksum, 0x / 0X / none) and upper-case bech32 are accepted, a refused spelling fails '
+                  'without effect (or the callback never reads the string), the backing invariant holds over all histories of written '
+                  'messages, the delayed-malicious token is refused in every accepted spelling; refutation witness for an Approval monitor '
+                  'that compares the contract address as a string; '
                   'ANY token: every message conversion and the wrapper '
                   'is exact on the bank side and witnessed by the balance the token reports, or fails without effect; every coin '
                   'creation is witnessed in the semantics without log-driven mint; refutation witnesses for the two findings. '
@@ -32,7 +39,7 @@ P = {
         {'name': 'erc20', 'n': {'quick': 450, 'thorough': 12000}, 'shrink_field': 'ops', 'batch': 6000},
     ],
     'coq_header': 'From HV Require Import Erc20.PegModel.\nFrom Coq Require Import ZArith NArith List.\nImport ListNotations.',
-    'lists': {'cases': {'type': 'N * list (op * obs) * list mcase', 'check': 'mismatches', 'shard': 60}},
+    'lists': {'cases': {'type': 'N * list (spell * op * obs) * list mcase', 'check': 'mismatches', 'shard': 60}},
     'search': {'rounds': 3, 'n': 2500},
     'rule': 'a case is one token pair (coin-origin with the module\'s own ERC20MinterBurnerDecimals deployed by RegisterCoin; or '
             'token-origin with: the compiled honest token, ERC20DirectBalanceManipulation, ERC20MaliciousDelayed, a hand-assembled '
@@ -52,6 +59,23 @@ P = {
             'MsgConvertCoin, MsgConvertERC20 (message router), signed Ethereum transactions transfer/burn/mint/mode/kill/unknown '
             'through EvmKeeper.ApplyTransaction (PostTxProcessing hook), bank MsgSend (wrapper), MsgTransfer without channel, '
             'ToggleConversion, SetParams, keeper OnRecvPacket / OnAcknowledgementPacket / OnTimeoutPacket after the ICS-20 credit, '
+            'EQUIVALENT SPELLINGS of every string field, chosen per message (22% of the string-carrying messages on the honest kinds, '
+            '34% on the misbehaving tokens; own random stream, so the histories are the ones generated before): hex address fields '
+            '(MsgConvertCoin.Receiver, MsgConvertERC20.ContractAddress and Sender) as EIP-55 / lower case / upper-case digits / mixed '
+            'case with a wrong checksum / lower case without 0x / EIP-55 without 0x / 0X + upper case / 38 digits (not an address); '
+            'bech32 fields (MsgConvertCoin.Sender, MsgConvertERC20.Receiver, bank MsgSend from and to, MsgTransfer sender, receiver of a '
+            'received ICS-20 packet, refunded sender of an acknowledged / timed-out packet) as lower case / UPPER CASE / another prefix '
+            '(cosmos1...) / the hex address / mixed case; the token of ToggleConversion and of the MsgTransfer wrapper as the '
+            'denomination / the contract address in each of the seven hex spellings / 38 digits / the denomination in another letter '
+            'case (a different denomination); the Coq case carries the spelling (record spell) next to every operation and the model '
+            'predicts acceptance and error code; ORACLE for a message in a non-canonical spelling: the same message in canonical '
+            'spelling is run first on a discarded copy of the same state; if the spelled message is accepted the canonical one must be '
+            'accepted too with an identical state afterwards (all observables), and a spelling that beyond doubt denotes the same address '
+            '(hex case / checksum / prefix, denomination or contract address) must not be refused where the canonical one succeeds; '
+            'the peg and exactness clauses are evaluated on it unchanged; after EVERY step the TokenPair gRPC query is asked by '
+            'denomination and by the contract address in the seven hex spellings and must answer the same pair (not found for all when '
+            'the pair is gone); corpus/C10/spellings.jsonl (runs first): every spelling of every string field of cc / ce / send / toggle / '
+            'recv / ack / timeout / ibcsend on every token kind, the chameleon in every transfer mode, '
             'keeper-level SendCoins; amounts 0 / 1 / balance / balance+1 / 2^128, 2^255, 2^256-1 / random; after every step: '
             'totalSupply and balanceOf of 8 actors (the script contract included) through real EVM calls, coin supply, escrow, bank balances, registry, params, '
             'five other token contracts (registry flags, coin supply, totalSupply, coin and token balances of the 8 actors in each one\'s '
@@ -65,7 +89,10 @@ P = {
         'Coq 8.16.1 kernel incl. vm_compute (no native_compute); std++ 1.8.0 gmap',
         'axioms: none (Print Assumptions: closed under the global context for every theorem of Props/C10.v)',
         'correspondence harness harness/erc20.go (+ asm.go assembler and script contract, common.go, evmexec.go base environment) + vlib/core.py: '
-        'generator, hand-assembled token bytecode, canonicaliser (error kinds to a 10-value enum), oracle, shrinker',
+        'generator, hand-assembled token bytecode, canonicaliser (error kinds to a 10-value enum), oracle, shrinker; the spelling '
+        'functions pegSpellHex / pegSpellBech / pegSpellToken (string forms of one address) and the table of accepted spellings '
+        'spell_ok of PegModel.v (a transcription of common.IsHexAddress, sdk.AccAddressFromBech32, utils.GetHaqqAddressFromBech32 and '
+        'GetTokenPairID, compared with the real parsers on every run)',
         'modelled, not verified: go-ethereum interpreter and the compiled Solidity tokens (their behaviour enters as the oracle '
         'instances honest_token / preset_token / cham_token ..., sampled by the correspondence), bank keeper '
         '(SendCoins, MintCoins, BurnCoins, blocked addresses), baseapp message atomicity and IBC-core acknowledgement '
